@@ -244,6 +244,10 @@ for c, pats in ((2, (1, 2, 3)), (3, (1, 5, 6, 7))):
     for pm in pats:
         for f2 in (0, 1, 2):
             for amb in (False, True):
+                # with the ambiguity filter on, only the min_freq = 0 configurations at 2 samples finish (650-950 s);
+                # the others exhaust 40 GB (three recounting filter passes) and are not registered
+                if amb and not (c == 2 and f2 == 0 and pm in (1, 3)):
+                    continue
                 an = 'ambig' if amb else 'noambig'
                 quick = (c, pm, f2, amb) in ((2, 2, 2, False), (2, 3, 1, False), (3, 5, 1, False), (3, 7, 2, False))
                 ob('C14.wrap.c%d.p%d.f%d.%s' % (c, pm, f2, an), ['C14'], 'generic_modes/wrap', 'dist_wrap_c%d_p%d_f%d_%s' % (c, pm, f2, an), tier='quick' if quick else 'thorough',
